@@ -134,6 +134,7 @@ type VC struct {
 	callGhosts    map[string]*callGhost
 	unreach       map[*ssa.MakeSlice]bool
 	heapProbe     map[string]bool
+	mapRangeCache map[*ssa.Range]bool
 	specHeaps     map[*types.Func][]string
 	specProbing   map[*types.Func]bool
 }
@@ -230,7 +231,12 @@ func (vc *VC) oblige(class, detail string, guard, cond Term, pos token.Pos, cons
 	vc.events = append(vc.events, vc.lastEv)
 	// after the check, execution continues only if it held (a wrapped integer result does not stop
 	// the program, so an overflow obligation constrains nothing afterwards)
-	if class != "overflow" {
+	// (obligations checked where a path ends -- at a return or at a cut back edge -- constrain
+	// nothing afterwards either. By default they are still assumed: their ground terms seed quantifier
+	// instantiation in later queries, and some proofs lean on that. A function marked `lean` drops
+	// them, which keeps heavily quantified postconditions out of unrelated queries.)
+	endsPath := vc.fi != nil && vc.fi.fc.Lean && vc.inlineDepth == 0 && (class == "ensures" || class == "frame" || class == "invariant-step" || class == "loop-frame" || class == "decreases")
+	if class != "overflow" && !endsPath {
 		vc.events = append(vc.events, &Event{Guard: guard, Cond: cond})
 	}
 }
@@ -693,9 +699,15 @@ func (vc *VC) instrModifies(in ssa.Instruction, mod map[string]bool) {
 		}
 	case *ssa.Range:
 		mod["iter@"+x.Name()] = true
+		if _, ok := vc.heapSort["iter@seen@"+x.Name()]; ok {
+			mod["iter@seen@"+x.Name()] = true
+		}
 	case *ssa.Next:
 		if r, ok := x.Iter.(*ssa.Range); ok {
 			mod["iter@"+r.Name()] = true
+			if _, ok := vc.heapSort["iter@seen@"+r.Name()]; ok {
+				mod["iter@seen@"+r.Name()] = true
+			}
 		}
 	case ssa.CallInstruction:
 		vc.callModifies(x.Common(), mod)
